@@ -212,6 +212,14 @@ Proof.
   rewrite (H u0 t0 (or_introl eq_refl)). apply IH. intros u t Hin. apply H. right. assumption.
 Qed.
 
+(* when the statement executes, every reported usage was put to the oracle, none skipped *)
+Lemma executes_checks_all chk kind us : authorize chk kind us = true ->
+  checks_made chk kind us = map (fun p => (perm_for kind (fst p), snd p)) us.
+Proof.
+  induction us as [|[u t] r IH]; cbn [authorize checks_made map fst snd]; intros H; [reflexivity|].
+  destruct (chk (perm_for kind u) t); [|discriminate]. rewrite (IH H). reflexivity.
+Qed.
+
 (* ---------------------------------------------------------------- the pinned tree, in miniature *)
 (* types: 1 UpdateStmt 2 SetClause 3 Subquery 4 SelectStmt 5 SelectCore 6 TableRef 7 DropIndexStmt
    fields: 1 Table 2 Set 3 Where 4 Value 5 Select 6 From 7 Name *)
